@@ -41,6 +41,9 @@ RULE = (
     "ero octets only."
     " In 40% of the v3 cases the agent announces msgMaxSize 484..2^31-1; every request must c"
     "arry the msgMaxSize this client announced in its own discovery probe."
+    ' One case in seven first makes a permanent configure() call that is refused (mistyped se'
+    'tting) while naming credentials of another family; the datagrams afterwards are those of'
+    ' the unchanged configuration.'
 )
 ASSUMPTIONS = [
     "the first datagram of a fresh v3 client is the discovery probe (C12 owns its content); it must still decode under the strict decoder",
